@@ -350,7 +350,7 @@ class NodeClassMatrix(StateTracker):
         """
         Changes the state of the system when a customer is released.
         """
-        self.state[node.id_number - 1][self.class_ordering[ind.customer_class]] -= 1
+        self.state[node.id_number - 1][self.class_ordering[ind.previous_class]] -= 1
 
     def change_state_classchange(self, node, ind):
         """
